@@ -1613,6 +1613,25 @@ func checkRenameRows(ctx context.Context, r *simkit.Run, w *world, step int) {
 		inner[0], inner[1] = inner[1], inner[0]
 	}
 	what := fmt.Sprintf("%s: rename %s -> %s, drop %s", from.Name, oldA.Name, newName, oldD.Name)
+	// Sometimes two columns exchange their names in the same rebuild (a third one is dropped).
+	swapped := ""
+	if rest := without(cand, di); !takesName && len(rest) > 0 && t.Chance("two-columns-exchange-names", 1, 3) {
+		si := rest[t.Draw("exchanged-column", len(rest))]
+		oldS := from.Columns[si]
+		var newS *schema.Column
+		for _, c := range to.Columns {
+			if c.Name == oldS.Name {
+				newS = c
+			}
+		}
+		if newS != nil {
+			newName, swapped = oldS.Name, oldA.Name
+			newA.Name, newS.Name = oldS.Name, oldA.Name
+			inner = []schema.Change{&schema.RenameColumn{From: oldA, To: newA}, &schema.RenameColumn{From: oldS, To: newS}, &schema.DropColumn{C: oldD}}
+			what = fmt.Sprintf("%s: %s and %s exchange their names, drop %s", from.Name, oldA.Name, oldS.Name, oldD.Name)
+			r.Probe("hand-written-rename-with-drop/exchange-planned")
+		}
+	}
 	plan, err := drv.PlanChanges(ctx, "rename-with-drop", []schema.Change{&schema.ModifyTable{T: to, Changes: inner}}, planOpts(false)...)
 	if err != nil {
 		r.Probe("hand-written-rename-with-drop/not-planned")
@@ -1667,6 +1686,12 @@ func checkRenameRows(ctx context.Context, r *simkit.Run, w *world, step int) {
 	if err != nil {
 		simkit.Harnessf("values before: %v", err)
 	}
+	var beforeS []string
+	if swapped != "" {
+		if beforeS, err = values(newName); err != nil {
+			simkit.Harnessf("values before: %v", err)
+		}
+	}
 	for _, c := range plan.Changes {
 		if _, err := tx.ExecContext(ctx, c.Cmd, c.Args...); err != nil {
 			r.Probe("hand-written-rename-with-drop/refused-by-the-engine")
@@ -1684,6 +1709,14 @@ func checkRenameRows(ctx context.Context, r *simkit.Run, w *world, step int) {
 		r.Fail(prop, "renamed-column-values", "renamed-column-missing", "step %d: after the hand-written change (%s) column %s cannot be read: %v\nplan:\n%s", step, what, newName, err, planText(plan))
 		return
 	}
+	if swapped != "" {
+		r.Probe("hand-written-rename-with-drop/exchange-executed")
+		afterS, err := values(swapped)
+		if err != nil || strings.Join(beforeS, "\x00") != strings.Join(afterS, "\x00") {
+			r.Fail(prop, "renamed-column-values", "exchanged-column-values-lost", "step %d: the hand-written change (%s) was planned and executed, but column %s does not hold what %s held (%v):\nbefore: %v\nafter: %v\nplan:\n%s", step, what, swapped, newName, err, firstStrs(beforeS, 8), firstStrs(afterS, 8), planText(plan))
+			return
+		}
+	}
 	if strings.Join(before, "\x00") != strings.Join(after, "\x00") {
 		sig := "renamed-column-values-lost"
 		if len(before) != len(after) {
@@ -1691,6 +1724,16 @@ func checkRenameRows(ctx context.Context, r *simkit.Run, w *world, step int) {
 		}
 		r.Fail(prop, "renamed-column-values", sig, "step %d: the hand-written change (%s) was planned and executed, but the values of the renamed column were not carried over:\nbefore (%s): %v\nafter (%s): %v\nplan:\n%s", step, what, oldA.Name, firstStrs(before, 8), newName, firstStrs(after, 8), planText(plan))
 	}
+}
+
+func without(s []int, v int) []int {
+	var out []int
+	for _, x := range s {
+		if x != v {
+			out = append(out, x)
+		}
+	}
+	return out
 }
 
 func firstStrs(s []string, n int) []string {
